@@ -491,7 +491,8 @@ def connclose(rng, i):
             # frames still arriving while closing
             h = hs[0]
             steps.append(srv({"k": "hb", "ch": 0}))
-        steps.append({"do": "closeconn"})
+        # (dropping the Connection closes it the same way; the result is not reported to anybody)
+        steps.append({"do": "dropconn" if rng.random() < 0.3 else "closeconn"})
     else:
         code = rng.choice([320, 200, 541, 402])
         text = rng.choice(["", "CONNECTION_FORCED - broker forced connection closure with reason 'shutdown'",
